@@ -19,6 +19,8 @@
 (*                           assigned SO FAR (a map being filled)          *)
 (*   "id_includes_desc"      the description is hashed into the id         *)
 (*   "id_drops_meaning"      the meaning is not mixed into the id          *)
+(*   "skips_call_params"     the pass that names placeholders does not     *)
+(*                           reach messages inside {param} blocks of calls *)
 (***************************************************************************)
 EXTENDS SoyMsg
 CONSTANTS MaxParts, MaxInner, Dev, OnlyCase
@@ -146,6 +148,16 @@ PluralInKey ==
     /\ \A db \in MsgIxSeqs(1, Len(MsgInnerPool)) :
          LET b2 == MsgFamBody([cas EXCEPT !.db = db]) IN
          (PlaceholderString(b2) = PlaceholderString(Body)) <=> (MsgKeyString(b2) = ks)
+
+\* (4) where the message sits does not matter
+NamesIn(kind, ns) ==
+  IF "skips_call_params" \in Dev /\ kind \in {"call-param", "nested"}
+  THEN [i \in 1..Len(ns) |-> ""]        \* never processed: no names (and id 0)
+  ELSE MsgNamesOf(ns)
+
+ContextFree ==
+  todo = {} => LET ns == Nodes IN
+               \A i \in 1..Len(MsgContextKinds) : NamesIn(MsgContextKinds[i], ns) = MsgNamesOf(ns)
 
 WellFormedFamily == MsgWellFormed(Body)
 =============================================================================
